@@ -122,6 +122,12 @@ def canon_file_dump(data):
     an unordered_map, so their order is unspecified); everything else, encoding details included, is kept"""
     try:
         t = parse_all(data)
+        if t[0] == "m":      # a bare block
+            ents = []
+            for kk, vv in t[1]:
+                if kk[0] == "u" and kk[1] == 4 and vv[0] == "a": vv = ("a", sorted(vv[1], key=dump), vv[2], vv[3])
+                ents.append((kk, vv))
+            t = ("m", ents, t[2], t[3])
         if t[0] == "a" and len(t[1]) == 3 and t[1][2][0] == "a":
             blocks = []
             for b in t[1][2][1]:
